@@ -58,7 +58,9 @@ type rpStep struct {
 	Respell bool `json:"irt_spelt_with_character_reference,omitempty"`
 }
 
-var rpSets = []string{"live", "live", "live", "empty", "only-this", "only-other", "empty-string", "empty-string+live", "near", "all-ever"}
+var rpSets = []string{"live", "live", "live", "empty", "only-this", "only-other", "empty-string", "empty-string+live", "near", "all-ever",
+	// every outstanding ID listed twice, in two orders (an application that appends on every redirect and never de-duplicates)
+	"live-repeated", "live-repeated"}
 
 func genReplay(g *Rng, tier string) *Plan {
 	k := rpKnobs{AllowIDPInitiated: g.Bool(0.12), CustomValidator: g.Bool(0.1)}
@@ -367,6 +369,15 @@ func execReplay(t *testing.T, p *Plan) *Result {
 			case "all-ever":
 				for _, fl := range flows {
 					set = append(set, fl.id)
+				}
+			case "live-repeated":
+				for _, fl := range flows {
+					if !fl.retired {
+						set = append(set, fl.id)
+					}
+				}
+				for i := len(set) - 1; i >= 0; i-- {
+					set = append(set, set[i])
 				}
 			}
 			// what the library is handed: for the "live" set the application's own long-lived slice (not a copy)
